@@ -383,6 +383,7 @@ def apply_drop_rules(item_text: str, path: str, keep_vis: bool = False) -> tuple
     drop = [False] * len(toks)
     replace: dict[int, str] = {}
     fired: list[str] = []
+    span_names: set[str] = set()
 
     def mark(a: int, b: int):
         for x in range(a, b + 1):
@@ -394,6 +395,33 @@ def apply_drop_rules(item_text: str, path: str, keep_vis: bool = False) -> tuple
         if drop[k]:
             continue
         t = toks[k]
+        # R2 tracing spans: `let X = trace_span!(..);` and `let Y = X.enter();` (span guards only scope log output)
+        if t.kind == "ident" and t.text == "let":
+            a1 = src.next_sig(k)
+            a2 = src.next_sig(a1) if a1 is not None else None
+            a3 = src.next_sig(a2) if a2 is not None else None
+            a4 = src.next_sig(a3) if a3 is not None else None
+            if (a4 is not None and toks[a1].kind == "ident" and toks[a2].text == "=" and toks[a3].kind == "ident"
+                    and toks[a3].text in ("trace_span", "debug_span", "info_span", "warn_span", "error_span") and toks[a4].text == "!"):
+                op = src.next_sig(a4)
+                if op is not None and toks[op].text in OPEN:
+                    cl = src.match[op]
+                    semi = src.next_sig(cl)
+                    if semi is not None and toks[semi].text == ";" and _side_effect_free(toks[op:cl + 1]):
+                        span_names.add(toks[a1].text)
+                        mark(k, semi)
+                        fired.append("R2")
+                        continue
+            if (a4 is not None and toks[a1].kind == "ident" and toks[a2].text == "=" and toks[a3].kind == "ident"
+                    and toks[a3].text in span_names and toks[a4].text == "."):
+                b1 = src.next_sig(a4)
+                b2 = src.next_sig(b1) if b1 is not None else None
+                if b2 is not None and toks[b1].text == "enter" and toks[b2].text == "(":
+                    semi = src.next_sig(src.match[b2])
+                    if semi is not None and toks[semi].text == ";":
+                        mark(k, semi)
+                        fired.append("R2")
+                        continue
         # R1 visibility
         if t.kind == "ident" and t.text == "pub" and not keep_vis:
             nk = src.next_sig(k)
